@@ -1155,46 +1155,66 @@ def entry_paths(res, hist):
                   ('in a tuple', lambda c: (c, 2), '$[0]'), ('nested', lambda c: {'k': [{'j': c}]}, '$.k[0].j'),
                   ('dict value next to data', lambda c: {'a': [1, 2], 'c': c}, '$.c')]
     exprs = ['{P}', '[{P}]', '{{r => {P}}}', '{P} = 1', 'list({P}, 1)', '[{P}].select($)', '[{P}].len()', 'isString({P})',
-             '$.len()', '$', 'dict(a => {P}).a', '{P} in [1]', 'bool({P})', 'coalesce(null, {P})', 'let(x => {P}) -> $x']
+             '$.len()', '$', 'dict(a => {P}).a', '{P} in [1]', 'bool({P})', 'coalesce(null, {P})', 'let(x => {P}) -> $x',
+             # member access / method call / indexing ON the host object, every spelling
+             '{P}.secret', '{P}.secret()', "{P}['secret']", '{P}?.secret', '[{P}].select($.secret)', '[{P}].secret',
+             '{P}.child.secret', '{P}.name', '{P}.len()']
+    # which library constructor made the context (and the engine that goes with it): the containment does not depend on it.
+    # Delegate mode is left out (calling host callables is its documented purpose, see ASSUMPTIONS).
+    from yaql import legacy as yaql_legacy
+    from yaql.language import conventions
+    flavours = [
+        ('default', yaql.create_context, yaql.YaqlFactory, None),
+        ('python-convention', lambda **kw: yaql.create_context(convention=conventions.PythonConvention(), **kw),
+         yaql.YaqlFactory, ('evaluate(data)', 'context variable', 'create_context(data)')),
+        ('legacy', yaql_legacy.create_context, yaql_legacy.YaqlFactory, ('evaluate(data)', 'context variable',
+                                                                          'create_context(data)')),
+        ('default after legacy', yaql.create_context, yaql.YaqlFactory, ('evaluate(data)',)),
+    ]
     n = 0
-    for conv_in in (True, False):
-        eng = yaql.YaqlFactory().create(options={'yaql.convertInputData': conv_in})
+    for flavour, make_context, make_factory, only in flavours:
+      for conv_in in (True, False):
+        eng = make_factory().create(options={'yaql.convertInputData': conv_in})
+        yaql_create_context, hist_tag = make_context, 'entry-context:' + flavour
         for pname, place, path in placements:
             for tmpl in exprs:
                 expr = tmpl.replace('{P}', path)
                 for entry in ('evaluate(data)', 'create_context(data)', 'context variable', 'YaqlInterface positional',
                               'YaqlInterface keyword'):
+                    if only is not None and entry not in only:
+                        continue
+                    hist[hist_tag] = hist.get(hist_tag, 0) + 1
                     c = Canary('entry')
                     data = place(c)
                     del LOG[:]
                     try:
                         if entry == 'evaluate(data)':
-                            out = eng(expr).evaluate(data=data, context=yaql.create_context())
+                            out = eng(expr).evaluate(data=data, context=yaql_create_context())
                         elif entry == 'create_context(data)':
-                            out = eng(expr).evaluate(context=yaql.create_context(data=data))
+                            out = eng(expr).evaluate(context=yaql_create_context(data=data))
                         elif entry == 'context variable':
-                            ctx = yaql.create_context()
+                            ctx = yaql_create_context()
                             ctx['$v'] = data
                             out = eng(expr.replace('$', '$v')).evaluate(context=ctx)
                         elif entry == 'YaqlInterface positional':
-                            yi = yaql_interface.YaqlInterface(yaql.create_context(), eng)
+                            yi = yaql_interface.YaqlInterface(yaql_create_context(), eng)
                             out = yi(expr.replace('$', '$1'), data)
                         else:
-                            yi = yaql_interface.YaqlInterface(yaql.create_context(), eng)
+                            yi = yaql_interface.YaqlInterface(yaql_create_context(), eng)
                             out = yi(expr.replace('$', '$v'), v=data)
                         out = repr(out)
                     except Exception as x:      # noqa
                         out = '%s: %s' % (type(x).__name__, x)
                     n += 1
                     hist['entry:' + entry] = hist.get('entry:' + entry, 0) + 1
-                    res.case('entry:%s:%s:%s:%s' % (entry, pname, conv_in, expr))
+                    res.case('entry:%s:%s:%s:%s:%s' % (flavour, entry, pname, conv_in, expr))
                     log = list(LOG)
                     if log or SECRET in out:
                         res.fail('oracle', 'entry-reached',
                                  'a non-yaqlized host object handed over %s through %s (yaql.convertInputData=%s) was '
-                                 'reached while evaluating %s: access log %r, outcome %s' % (
-                                     pname, entry, conv_in, expr, log[:6], out[:120]),
-                                 dict(part='entry', entry=entry, placement=pname, conv_in=conv_in, expr=expr))
+                                 'reached while evaluating %s in a %s context: access log %r, outcome %s' % (
+                                     pname, entry, conv_in, expr, flavour, log[:6], out[:120]),
+                                 dict(part='entry', entry=entry, placement=pname, conv_in=conv_in, expr=expr, flavour=flavour))
                         if sum(1 for f in res.failures if f.key == 'entry-reached') >= 3:
                             return n
     return n
